@@ -87,9 +87,23 @@ class ResponseModel:
     def run(self, status, dlen, dns, te, upgrade):
         f = self.f
         st = symex.Sym(f)
-        st.write_key((1,) + self.status_key, ("agg", STATUS, "StatusCode", {"0": ("const", status, "%d_u16" % status, None)}))
-        st.write_key((1,) + self.dlen_key, ("none",) if dlen is None else ("some", ("const", dlen, "%d_usize" % dlen, None)))
-        st.write_key((1,) + self.reader_key, BODY)
+        # `self` as one known aggregate (so that it keeps its contents when it is moved into a helper as a whole)
+        over = {self.status_path: ("agg", STATUS, "StatusCode", {"0": ("const", status, "%d_u16" % status, None)}),
+                self.dlen_path: ("none",) if dlen is None else ("some", ("const", dlen, "%d_usize" % dlen, None)),
+                self.reader_path: BODY}
+        def build(adt, prefix):
+            a = self.facts.adts.get(adt)
+            d = {}
+            for x in a["variants"][0]["fields"]:
+                path = prefix + (x["name"],)
+                if path in over:
+                    d[x["name"]] = over[path]
+                elif any(k[:len(path)] == path for k in over) and x["ty"] in self.facts.adts and self.facts.adts[x["ty"]]["kind"] == "Struct":
+                    d[x["name"]] = build(x["ty"], path)
+                else:
+                    d[x["name"]] = ("init", (1,) + tuple("." + s_ for s_ in path))
+            return ("agg", adt, a["variants"][0]["name"], d)
+        st.write_key((1,), build(RESP, ()))
         st.write_key((2,), OUT)
         st.write_key((5,), ("const", dns, str(dns).lower(), None))
         st.write_key((6,), ("none",) if not upgrade else ("some", ("sym", "protocol")))
